@@ -37,6 +37,8 @@ def main():
     table = []
     for d in dirs:
         meta = json.load(open(os.path.join(d, 'meta.json')))
+        if meta.get('status') == 'superseded':
+            continue
         prop = meta['property']
         patch = os.path.join(d, 'patch.diff')
         r = sh(['git', '-C', REPO, 'apply', patch])
